@@ -48,7 +48,8 @@ package output
 //@ func DecoratedOutputWriter.WriteHeader
 //@   modifies baseCockpit.*, spinner.Spinner.*
 //@ func DecoratedOutputWriter.WriteFooter
-//@   modifies baseCockpit.*, spinner.Spinner.*
+// (the cockpit deletes the task from its running list in place: elements of a []*task.Task)
+//@   modifies baseCockpit.*, spinner.Spinner.*, key("Elem_Ptask_Task_Ref")
 
 //@ func (*rawOutputDecorator).Write
 //@   requires rawOK(d)
@@ -72,7 +73,7 @@ package output
 //@   modifies baseCockpit.*, spinner.Spinner.*
 //@ func (*cockpitOutputDecorator).WriteFooter
 //@   requires cockpitOK(d)
-//@   modifies baseCockpit.*, spinner.Spinner.*
+//@   modifies baseCockpit.*, spinner.Spinner.*, contents(d.b.tasks)
 //@   callsite remove
 //@     assumepre forall i int, j int :: 0 <= i && i < j && j < len(d.b.tasks) ==> !(d.b.tasks[i] == d.t && d.b.tasks[j] == d.t) // a task object is started at most once at a time (typestate of TaskOutput, not expressible through the decorator interface)
 //@ func (*baseCockpit).add
